@@ -46,7 +46,9 @@ type Finding struct {
 
 type Violation struct {
 	Key    string `json:"key"`    // stable identity: which input / call site / history fails
-	Detail any    `json:"detail"` // replayable description
+	Detail any    `json:"detail"` // replayable description (first case seen)
+	Count  int    `json:"count"`  // failing cases with this key
+	More   []any  `json:"more,omitempty"`
 }
 
 type Run struct {
@@ -57,8 +59,8 @@ type Run struct {
 	start time.Time
 
 	mu         sync.Mutex
-	viol       []Violation
-	violKeys   map[string]bool
+	viol       []*Violation
+	violKeys   map[string]*Violation
 	known      []Finding
 	knownHit   map[int]int
 	Assume     []string
@@ -70,7 +72,7 @@ type Run struct {
 }
 
 func Start(id, level string) *Run {
-	r := &Run{ID: id, Level: level, start: time.Now(), violKeys: map[string]bool{}, knownHit: map[int]int{},
+	r := &Run{ID: id, Level: level, start: time.Now(), violKeys: map[string]*Violation{}, knownHit: map[int]int{},
 		Cov: map[string]any{}, outcomes: map[string]int{}}
 	r.Tier = os.Getenv("VERIF_TIER")
 	if r.Tier != "thorough" {
@@ -147,11 +149,16 @@ func (r *Run) loadKnown() {
 func (r *Run) Violate(key string, detail any) {
 	r.mu.Lock()
 	defer r.mu.Unlock()
-	if r.violKeys[key] {
+	if v := r.violKeys[key]; v != nil {
+		v.Count++
+		if len(v.More) < 3 {
+			v.More = append(v.More, detail)
+		}
 		return
 	}
-	r.violKeys[key] = true
-	r.viol = append(r.viol, Violation{key, detail})
+	v := &Violation{Key: key, Detail: detail, Count: 1}
+	r.violKeys[key] = v
+	r.viol = append(r.viol, v)
 }
 
 func (r *Run) Violations() int { r.mu.Lock(); defer r.mu.Unlock(); return len(r.viol) }
@@ -201,7 +208,7 @@ func (r *Run) Infra(format string, a ...any) {
 func (r *Run) Finish() {
 	r.mu.Lock()
 	defer r.mu.Unlock()
-	var unknown []Violation
+	var unknown []*Violation
 	for _, v := range r.viol {
 		hit := -1
 		for i, f := range r.known {
@@ -211,7 +218,7 @@ func (r *Run) Finish() {
 			}
 		}
 		if hit >= 0 {
-			r.knownHit[hit]++
+			r.knownHit[hit] += v.Count
 		} else {
 			unknown = append(unknown, v)
 		}
@@ -230,9 +237,9 @@ func (r *Run) Finish() {
 		}
 		h := sha256.Sum256([]byte(v.Key))
 		p := filepath.Join(Out(), "replays", fmt.Sprintf("%s-%s.json", r.ID, hex.EncodeToString(h[:6])))
-		b, _ := json.MarshalIndent(map[string]any{"property": r.ID, "key": v.Key, "detail": v.Detail, "tier": r.Tier}, "", " ")
+		b, _ := json.MarshalIndent(map[string]any{"property": r.ID, "key": v.Key, "detail": v.Detail, "count": v.Count, "more": v.More, "tier": r.Tier}, "", " ")
 		os.WriteFile(p, b, 0o644)
-		fmt.Printf("VIOLATION property=%s replay=%s\n  key: %s\n", r.ID, p, v.Key)
+		fmt.Printf("VIOLATION property=%s replay=%s\n  key: %s (%d cases)\n", r.ID, p, v.Key, v.Count)
 	}
 	cov := r.Cov
 	if _, ok := cov["samples"]; !ok {
